@@ -295,6 +295,31 @@ func dispatchOf(pkg, fn, tag string) []disp {
 	if fd == nil {
 		return nil
 	}
+	// what the dispatching loop does on its own before the switch, for every command alike (s.dropStaleSelection(state)):
+	// the receiver-method calls that stand as statements in front of the switch in its block
+	var prologue []ast.Stmt
+	ast.Inspect(fd.Body, func(n ast.Node) bool {
+		blk, ok := n.(*ast.BlockStmt)
+		if !ok {
+			return true
+		}
+		for i, st := range blk.List {
+			if sw, ok := st.(*ast.SwitchStmt); ok && sw.Tag != nil && src(sw.Tag) == tag {
+				for _, pre := range blk.List[:i] {
+					if es, ok := pre.(*ast.ExprStmt); ok {
+						if ce, ok := es.X.(*ast.CallExpr); ok {
+							if se, ok := ce.Fun.(*ast.SelectorExpr); ok {
+								if id, ok := se.X.(*ast.Ident); ok && pkgs[id.Name] == nil {
+									prologue = append(prologue, pre)
+								}
+							}
+						}
+					}
+				}
+			}
+		}
+		return true
+	})
 	ast.Inspect(fd.Body, func(n ast.Node) bool {
 		sw, ok := n.(*ast.SwitchStmt)
 		if !ok || sw.Tag == nil || src(sw.Tag) != tag {
@@ -335,7 +360,7 @@ func dispatchOf(pkg, fn, tag string) []disp {
 				})
 			}
 			for _, l := range labels {
-				out = append(out, disp{l, hp, hf, cc.Body, pkg})
+				out = append(out, disp{l, hp, hf, append(append([]ast.Stmt(nil), prologue...), cc.Body...), pkg})
 			}
 		}
 		return false
